@@ -350,6 +350,45 @@ theorem C32_redistribute_holds : C32_redistribute := by
     subst he
     simp [redistribute, reassignByRole, grains]
 
+/-- who survives an unreachable target: exactly the peers whose remoting endpoint differs from the
+    target's in host OR port (a peer sharing only the host, or only the port, is a survivor), in the
+    original order; so the redistribution rules above range over all of them -/
+def C32_survivors : Prop :=
+  ∀ (peers : List Peer) (target : Peer),
+    (∀ p, p ∈ survivingPeersExcept peers target ↔ p ∈ peers ∧ (p.host ≠ target.host ∨ p.port ≠ target.port))
+    ∧ (survivingPeersExcept peers target).Sublist peers
+    ∧ (∀ (requests : List Request) (leaderRoles : List Role) (a : Actor),
+        let survivors := (survivingPeersExcept peers target).map (·.roles)
+        a ∈ (redistribute requests survivors leaderRoles).failedActors →
+          ∀ p ∈ peers, (p.host ≠ target.host ∨ p.port ≠ target.port) → eligibleForRole p.roles a.role = false)
+
+theorem C32_survivors_holds : C32_survivors := by
+  intro peers target
+  have hmem : ∀ p, p ∈ survivingPeersExcept peers target ↔ p ∈ peers ∧ (p.host ≠ target.host ∨ p.port ≠ target.port) := by
+    intro p
+    simp only [survivingPeersExcept, List.mem_filter, Bool.not_eq_eq_eq_not, Bool.not_true, Bool.and_eq_false_imp,
+      beq_iff_eq, beq_eq_false_iff_ne, ne_eq]
+    constructor
+    · rintro ⟨h1, h2⟩
+      refine ⟨h1, ?_⟩
+      by_cases hh : p.host = target.host
+      · right; exact h2 hh
+      · left; exact hh
+    · rintro ⟨h1, h2⟩
+      refine ⟨h1, ?_⟩
+      intro hh
+      rcases h2 with h | h
+      · exact absurd hh h
+      · exact h
+  refine ⟨hmem, List.filter_sublist, ?_⟩
+  intro requests leaderRoles a survivors hfail p hp hdiff
+  have hr := C32_redistribute_holds requests survivors leaderRoles
+  simp only at hr
+  obtain ⟨_, _, _, _, hfailed, _⟩ := hr
+  have := ((hfailed a).1 hfail).2.1 p.roles
+    (List.mem_map.2 ⟨p, (hmem p).2 ⟨hp, hdiff⟩, rfl⟩)
+  exact this
+
 /-- redistribution places each unsent actor on a least-loaded eligible survivor at its turn
     (load = number of unsent actors already reassigned to that survivor), lowest index on ties -/
 def C32_redistribute_least : Prop :=
@@ -475,10 +514,10 @@ theorem batches_of_code_constant (actors : List Actor) (grains : List Grain) :
 /-- C32 at full strength: for EVERY iteration order, departed state, survivor set, role sets and
     base loads. -/
 def C32_full : Prop :=
-  C32_actors ∧ C32_least_loaded ∧ C32_grains ∧ C32_redistribute ∧ C32_redistribute_least ∧ C32_gate ∧ C32_batches
+  C32_actors ∧ C32_least_loaded ∧ C32_grains ∧ C32_redistribute ∧ C32_survivors ∧ C32_redistribute_least ∧ C32_gate ∧ C32_batches
 
 theorem C32_holds : C32_full :=
-  ⟨C32_actors_holds, C32_least_loaded_holds, C32_grains_holds, C32_redistribute_holds,
+  ⟨C32_actors_holds, C32_least_loaded_holds, C32_grains_holds, C32_redistribute_holds, C32_survivors_holds,
    C32_redistribute_least_holds, C32_gate_holds, C32_batches_holds⟩
 
 /-! ### non-vacuity: concrete instances (tests, by evaluation) -/
@@ -497,5 +536,7 @@ example : pickTarget [[], [1]] (allocRun [[], [1]] [5, 0] [⟨1, 0, false, true,
 example : (allocateGrains 3 ((List.range 7).map fun i => ⟨i, false, false⟩)).2.map (·.map (·.id))
     = [[1, 2], [3, 4], [5, 6]] := by decide
 example : ex1.Nodup := by decide
+-- a survivor sharing the unreachable target's port (the usual deployment) or host stays a survivor
+example : (survivingPeersExcept [⟨1, 9000, []⟩, ⟨2, 9000, [1]⟩, ⟨1, 9001, []⟩] ⟨1, 9000, []⟩).map (·.host) = [2, 1] := by decide
 
 end GoaktVerif.C32
